@@ -269,6 +269,8 @@ def run(ctx):
     ctx.do(r14_5)
     from . import c10
     ctx.do(c10.r10_4_units, modules=("mbox", "search"))
+    from . import c16 as _c16
+    ctx.do(_c16.r16_4b)  # TEXT / BODY search the same rendering whichever generator produced it
     from . import c15 as _c15
     ctx.do(_c15.r15_4)  # message-set keys denote what the set denotes everywhere
     ctx.do(c10.r10_2)  # a STORE is not admitted beside a running SEARCH
